@@ -10,4 +10,4 @@
             None => final(self).last_valid_pos == old(self).last_valid_pos
                             && final(w).trunc == (if final(self).pos() > old(self).last_valid_pos { old(w).trunc.push(trunc_ev(old(self), old(self).last_valid_pos)) } else { old(w).trunc }), // [C03:truncate-iff-moved]
         },
-        !old(self).faulty() ==> (parse_at(old(self).all(), old(self).pos()) is Some <==> r matches Some(Ok(_))), // [C03:entry-iff-decodes]
+        !old(self).faulty() ==> (parse_at(old(self).all(), old(self).pos()) is Some <==> r matches Some(Ok(_))), // [C03:entry-iff-decodes] [C11:entry-iff-decodes] [C04:entry-iff-decodes]
